@@ -98,14 +98,17 @@ TotalCovers(w, rq, v) ==
      /\ e.r + 1 <= NRes(w)
      /\ IF e.amount < 0 THEN srv[w].total[e.r + 1] > 0 ELSE srv[w].total[e.r + 1] >= e.amount
 LifetimeCovers(w, rq, v) == wk[w].remaining < 0 \/ wk[w].remaining >= Variant(rq, v).min_time
+\* for "some worker could run it": at the exact boundary remaining = min_time the worker's own clock decides (it computes its
+\* remaining time from its own start instant and rejects when it is a hair short), so only a strictly larger remainder counts
+LifetimeSurelyCovers(w, rq, v) == wk[w].remaining < 0 \/ wk[w].remaining > Variant(rq, v).min_time
 IsMn(rq) == Variant(rq, 0).n_nodes > 0
 CapableSn(w, t) ==
   /\ w \in DOMAIN wk /\ ~srv[w].stopping /\ ~wk[w].stopped
-  /\ \E v \in 0..(Len(classes[tinfo[t].rq + 1]) - 1) : TotalCovers(w, tinfo[t].rq, v) /\ LifetimeCovers(w, tinfo[t].rq, v)
+  /\ \E v \in 0..(Len(classes[tinfo[t].rq + 1]) - 1) : TotalCovers(w, tinfo[t].rq, v) /\ LifetimeSurelyCovers(w, tinfo[t].rq, v)
 CapableMn(t) ==
   \E g \in {srv[w].group : w \in Workers} :
      Cardinality({w \in Workers : srv[w].group = g /\ ~srv[w].stopping /\ w \in DOMAIN wk /\ ~wk[w].stopped
-                                   /\ LifetimeCovers(w, tinfo[t].rq, 0)}) >= Variant(tinfo[t].rq, 0).n_nodes
+                                   /\ LifetimeSurelyCovers(w, tinfo[t].rq, 0)}) >= Variant(tinfo[t].rq, 0).n_nodes
 Runnable(t) == IF IsMn(tinfo[t].rq) THEN CapableMn(t) ELSE \E w \in Workers : CapableSn(w, t)
 
 ChannelsEmpty == \A w \in DOMAIN wk : wk[w].s2w = <<>> /\ wk[w].w2s = <<>>
